@@ -66,6 +66,14 @@ class BackendBase:
         self.functions = set()
         self.notes = []
         self.values = {}  # name -> numeric value of lhs (for translation validation)
+        self.override = {}  # scalar input name -> witness value chosen by the solver (see run.py, solver-made witnesses)
+        self.scalar_names = []
+
+    def _ov(self, name, v):
+        self.scalar_names.append(name)
+        if name in self.override:
+            return type(v)(round(self.override[name])) if isinstance(v, int) else float(self.override[name])
+        return v
 
     # -- input values (identical stream in both backends) --
     def _draw(self, shape, complex_=False, positive=False, lo=None, hi=None):
@@ -236,6 +244,7 @@ class FloatBackend(BackendBase):
         v = float(self._draw((), False, positive, lo, hi))
         if nonzero and v == 0:
             v = 0.5
+        v = self._ov(name, v)
         self.inputs[name] = v
         return v
 
@@ -246,12 +255,12 @@ class FloatBackend(BackendBase):
         return _data_of(a)
 
     def sym_float(self, name, lo, hi):
-        v = float(self._draw((), lo=lo, hi=hi))
+        v = self._ov(name, float(self._draw((), lo=lo, hi=hi)))
         self.inputs[name] = v
         return v
 
     def sym_int(self, name, lo, hi):
-        v = int(self.rng.integers(lo, hi + 1))
+        v = self._ov(name, int(self.rng.integers(lo, hi + 1)))
         self.inputs[name] = v
         return v
 
@@ -364,6 +373,7 @@ class SymBackend(BackendBase):
         v = float(self._draw((), False, positive, lo, hi))
         if nonzero and v == 0:
             v = 0.5
+        v = self._ov(name, v)
         self.inputs[name] = v
         x = fresh(name, "input", v)
         if positive:
@@ -398,7 +408,7 @@ class SymBackend(BackendBase):
         """a float parameter (passes isinstance(x, float)) that is symbolic in [lo, hi]"""
         from .scalars import SymFloat
 
-        v = float(self._draw((), lo=lo, hi=hi))
+        v = self._ov(name, float(self._draw((), lo=lo, hi=hi)))
         self.inputs[name] = v
         x = fresh(name, "input", v)
         self.ctx.assume("ge", (x - lo).p, f"{name} >= {lo}")
@@ -408,7 +418,7 @@ class SymBackend(BackendBase):
     def sym_int(self, name, lo, hi):
         from .scalars import SymInt
 
-        v = int(self.rng.integers(lo, hi + 1))
+        v = self._ov(name, int(self.rng.integers(lo, hi + 1)))
         self.inputs[name] = v
         x = fresh(name, "input", float(v))
         self.ctx.assume("ge", (x - lo).p, f"{name} >= {lo}")
